@@ -35,6 +35,8 @@ pub enum PointSpec {
     Former(u16),
     /// far away / extreme magnitude
     Extreme(i8, i16),
+    /// a non-finite coordinate (NaN / +inf / -inf) on one axis of an otherwise ordinary grid point
+    NonFinite(u8, u8),
     /// integer affine combination (weights summing to 1) of the first <= D vertices: lies in their
     /// affine hull, i.e. a collinear/coplanar bootstrap prefix or a point on a facet hyperplane
     AffineComb(Vec<i8>),
@@ -339,6 +341,15 @@ impl<K: Kern<D>, const D: usize> World<K, D> {
                     self.removed[pick(*i, self.removed.len())].1.clone()
                 }
             }
+            PointSpec::NonFinite(kind, axis) => {
+                let mut c: Vec<f64> = (0..D).map(|j| 0.25 + j as f64).collect();
+                c[*axis as usize % D] = match kind % 3 {
+                    0 => f64::NAN,
+                    1 => f64::INFINITY,
+                    _ => f64::NEG_INFINITY,
+                };
+                c
+            }
             PointSpec::AffineComb(w) => {
                 let k = nv.min(D);
                 if k == 0 {
@@ -596,7 +607,7 @@ impl<K: Kern<D>, const D: usize> World<K, D> {
                 let pol = validation_policy(*k);
                 match crate::driver::ctx::guarded(|| self.dt.set_validation_policy(pol)) {
                     Ok(()) => Outcome::Set,
-                    Err((loc, msg)) => Outcome::SetPanicked { site: crate::driver::ctx::panic_site(&loc), message: msg },
+                    Err((loc, msg)) => Outcome::SetPanicked { site: "set_validation_policy".into(), message: format!("{msg} (at {})", crate::driver::ctx::panic_site(&loc)) },
                 }
             }
             Op::SetGuarantee(k) => {
@@ -604,7 +615,7 @@ impl<K: Kern<D>, const D: usize> World<K, D> {
                 let g = guarantee(*k);
                 match crate::driver::ctx::guarded(|| self.dt.set_topology_guarantee(g)) {
                     Ok(()) => Outcome::Set,
-                    Err((loc, msg)) => Outcome::SetPanicked { site: crate::driver::ctx::panic_site(&loc), message: msg },
+                    Err((loc, msg)) => Outcome::SetPanicked { site: "set_topology_guarantee".into(), message: format!("{msg} (at {})", crate::driver::ctx::panic_site(&loc)) },
                 }
             }
             Op::SetRepairPolicy(k) => {
@@ -683,12 +694,27 @@ pub struct OpMix {
 }
 
 pub fn op_strategy(dim: usize, mix: OpMix) -> BoxedStrategy<Op> {
+    op_strategy_ext(dim, mix, false)
+}
+
+/// `extreme`: also generate extreme-magnitude and non-finite coordinates (C19's adversarial generator)
+pub fn op_strategy_ext(dim: usize, mix: OpMix, extreme: bool) -> BoxedStrategy<Op> {
     let uuid = if mix.adversarial_uuid {
         prop_oneof![8 => Just(UuidSpec::Fresh), 1 => any::<u16>().prop_map(UuidSpec::Live), 1 => any::<u16>().prop_map(UuidSpec::Dead)].boxed()
     } else {
         Just(UuidSpec::Fresh).boxed()
     };
-    let insert = (point_spec(dim), any::<bool>(), uuid).prop_map(|(p, stats, uuid)| Op::Insert { p, stats, uuid });
+    let pspec = if extreme {
+        prop_oneof![
+            6 => point_spec(dim),
+            2 => (-15i8..=15, -50i16..=50).prop_map(|(e, m)| PointSpec::Extreme(e, m)),
+            1 => (0u8..3, 0u8..5).prop_map(|(k, a)| PointSpec::NonFinite(k, a)),
+        ]
+        .boxed()
+    } else {
+        point_spec(dim)
+    };
+    let insert = (pspec, any::<bool>(), uuid).prop_map(|(p, stats, uuid)| Op::Insert { p, stats, uuid });
     let remove = (any::<u16>(), prop_oneof![9 => Just(false), 1 => Just(true)]).prop_map(|(v, unknown)| Op::Remove { v, unknown });
     let flips = prop_oneof![
         2 => (sel(), proptest::collection::vec(0u8..8, dim + 1)).prop_map(|(cell, w)| Op::FlipK1Insert { cell, w }),
